@@ -266,6 +266,38 @@ def gen_case(rng, tier, index):
         base_cfg["mode"]["stop_events"] = "x_base_halt"
     cfg["holds"] = holds
 
+    # read-only probes: names of device variables of both modes (loaded or not for that player), modelled variables,
+    # and a name nobody ever writes.  Reading must never change any player's variable set.
+    read_names = ["achievements", "extra_balls", "zz_never_written"] + sorted(PV_VARS)
+    for mode in ("base", "m2"):
+        mc_ = cfg[mode]
+        for nm in mc_.get("counters", {}):
+            read_names.append(nm + "_state")
+        for nm in mc_.get("accruals", {}):
+            read_names.append(nm + "_state")
+        for nm in mc_.get("sequences", {}):
+            read_names.append(nm + "_state")
+        for nm in mc_.get("shots", {}):
+            read_names += ["shot_" + nm, "shot_%s_enabled" % nm, "shot_%s_enabled" % nm]
+        for nm in mc_.get("state_machines", {}):
+            read_names.append("state_machine_" + nm)
+        for nm in mc_.get("timers", {}):
+            read_names.append("%s_%s_tick" % (mode, nm))
+        for nm in mc_.get("extra_balls", {}):
+            read_names.append("extra_ball_%s_num_awarded" % nm)
+    simple = [x for x in read_names if not x.endswith("_state") and x != "achievements"]
+    probes = []
+    for i in range(3):
+        who = rng.choice(["current_player", "players[0]", "players[1]", "players[1]", "players[2]", "players[3]"])
+        probes.append(["x_probe_%d" % i, "%s.%s==1" % (who, rng.choice(simple))])
+    cfg["probes"] = probes
+
+    def read_op():
+        if rng.random() < 0.3:
+            return ["probe", rng.randrange(len(probes))]
+        return ["read", rng.choice(["cur", 0, 1, 1, 2, 2, 3]), rng.choice(read_names),
+                rng.choice(["item", "item", "attr", "isvar"])]
+
     def held_stop_pattern(which):
         """stop requested -> ball drains within the hold -> stimuli (for whoever is up then) -> hold runs out."""
         stim = m2_stim if which == "m2" else base_stim
@@ -294,6 +326,9 @@ def gen_case(rng, tier, index):
             continue
         if holds and not pending_adds and rng.random() < 0.035:
             ops += held_stop_pattern(rng.choice(sorted(holds)))
+            continue
+        if rng.random() < 0.07:
+            ops.append(read_op())
             continue
         if k < 0.13:
             ops.append(["drain"])
@@ -334,6 +369,8 @@ def machine_config(cfg):
         ep.setdefault(trig, [])
         if ev not in ep[trig]:
             ep[trig].append(ev)
+    for ev, expr in cfg.get("probes", []):
+        ep["%s{%s}" % (ev, expr)] = ["x_probe_out"]     # conditional entry: evaluating it reads a player variable
     qr = {}
     for which, secs in cfg.get("holds", {}).items():
         qr["mode_%s_stopping" % which] = {"post": "x_%s_outro_start" % which, "wait_for": "x_%s_outro_done" % which}
